@@ -217,8 +217,21 @@ Fixpoint set_phase (k : nat) (ph : nat) (l : list (name * nat)) : list (name * n
    performs its next phase (postRotate :376: compress, then delete) *)
 Inductive event :=
 | EWrite (r : record) (now : name)
-| EGzip (k : nat)
-| EDelete (k : nat) (boundary : name).
+| EGzip (k : nat)                                  (* compress phase, gzipFile returns nil *)
+| EGzipFail (k : nat) (junk : option file)         (* compress phase, gzipFile returns an error *)
+| EDelete (k : nat) (boundary : name)
+| ERestart (rot0 now0 : name).                     (* Close, then NewLogger on the same file *)
+
+(* gzipFile :421 failing: before os.Create succeeded (a directory at F.gz, ...) nothing changed; after it
+   (ENOSPC while writing, ...) F.gz holds whatever partial output there is. Either way the function
+   returns before os.Remove(file): the plain backup stays. Nothing is attempted when F is absent (:394)
+   or compression is off (:384). *)
+Definition compress_fail (c : config) (f : name) (junk : option file) (fs : fsys) : fsys :=
+  if negb (c_compress c) then fs else
+  match fs_get f fs, junk with
+  | Some _, Some j => fs_put (f ++ gzip_ext) j fs
+  | _, _ => fs
+  end.
 
 Definition step (c : config) (s : state) (e : event) : state :=
   match e with
@@ -230,6 +243,13 @@ Definition step (c : config) (s : state) (e : event) : state :=
                (set_phase k 1%nat (s_posts s)) (s_removed s)
       | _ => s
       end
+  | EGzipFail k junk =>
+      match nth_error (s_posts s) k with
+      | Some (f, O) =>
+          mkst (compress_fail c f junk (s_fs s)) (s_fp s) (s_backup s) (s_size s) (s_rot s)
+               (set_phase k 1%nat (s_posts s)) (s_removed s)
+      | _ => s
+      end
   | EDelete k boundary =>
       match nth_error (s_posts s) k with
       | Some (f, 1%nat) =>
@@ -238,6 +258,46 @@ Definition step (c : config) (s : state) (e : event) : state :=
                (set_phase k 2%nat (s_posts s)) (s_removed s ++ snapshot outs (s_fs s))
       | _ => s
       end
+  | ERestart rot0 now0 =>
+      (* Close :261 (sync, close), then a new rule and NewLogger/init :278 on the directory as it is: an
+         existing file is opened O_APPEND and its size counts (:293-296); goroutines of the first life
+         that are still running keep running *)
+      let i := init c (s_fs s) rot0 now0 in
+      mkst (s_fs i) (s_fp i) (s_backup i) (s_size i) (s_rot i) (s_posts s) (s_removed s)
   end.
 
 Definition run (c : config) (s : state) (h : list event) : state := fold_left (step c) h s.
+
+(* ---------------------------------------------------------------- the configuration path
+   Config -> newFileWriter (writer.go:202-216: With* options, only for positive numbers) -> handleOptions
+   -> createOutput (logs.go:414-427) -> NewSizeLimitRotateRule / DefaultRotateRule -> NewLogger *)
+Record setup := mksetup {
+  su_size : bool;          (* Rotation == "size" *)
+  su_max_size : Z;         (* MaxSize, MB *)
+  su_max_backups : Z;      (* MaxBackups *)
+  su_keep_days : Z;        (* KeepDays *)
+  su_compress : bool       (* Compress *)
+}.
+
+Record log_options := mkopts {
+  o_gzip : bool; o_keep_days : Z; o_max_backups : Z; o_max_size : Z; o_size : bool
+}.
+
+Definition backup_file_delimiter : name := [45]%N.   (* "-" *)
+
+(* newFileWriter :202-216 applied to zero-valued options *)
+Definition options_of_setup (u : setup) : log_options :=
+  mkopts (su_compress u)
+         (if 0 <? su_keep_days u then su_keep_days u else 0)
+         (if 0 <? su_max_backups u then su_max_backups u else 0)
+         (if 0 <? su_max_size u then su_max_size u else 0)
+         (su_size u).
+
+(* createOutput + the rule constructors (:76, :139): the rule and logger a path gets *)
+Definition rule_of_options (path : name) (o : log_options) : config :=
+  if o_size o
+  then mkcfg SizeLimit path backup_file_delimiter (o_keep_days o) (o_gzip o) (o_gzip o)
+             (o_max_size o * mega_bytes) (o_max_backups o)
+  else mkcfg Daily path backup_file_delimiter (o_keep_days o) (o_gzip o) (o_gzip o) 0 0.
+
+Definition rule_of_config (path : name) (u : setup) : config := rule_of_options path (options_of_setup u).
